@@ -48,3 +48,113 @@ pub fn counter_idle(clones: usize, dropped: usize) -> bool {
     }
     counter.has_no_active_streams()
 }
+
+// ---------------------------------------------------------------------------------------------
+// End-to-end access: a real `Connection` polled step by step (added for the C10 follow-up).
+// ---------------------------------------------------------------------------------------------
+
+use std::{
+    pin::Pin,
+    task::{Context, Poll},
+};
+
+use libp2p_core::muxing::StreamMuxerBox;
+
+use super::{Connection, ConnectionError};
+use crate::handler::ConnectionHandler;
+
+/// Outcome of one `Connection::poll`.
+#[derive(Debug, Clone, PartialEq, Eq)]
+pub enum Polled {
+    Pending,
+    /// `Ok(Event::Handler(_))` or `Ok(Event::AddressChange(_))`
+    Event,
+    /// `Err(ConnectionError::KeepAliveTimeout)`
+    KeepAliveTimeout,
+    /// any other `ConnectionError`
+    OtherError(String),
+}
+
+/// Read-only view of the private fields the keep-alive block of `Connection::poll` looks at.
+#[derive(Debug, Clone, PartialEq, Eq)]
+pub struct Snapshot {
+    pub shutdown: Kind,
+    pub negotiating_in: usize,
+    pub negotiating_out: usize,
+    pub requested_substreams: usize,
+    /// `!stream_counter.has_no_active_streams()`
+    pub active_streams: bool,
+}
+
+/// A real `Connection` over the given muxer and handler.
+pub struct Conn<H: ConnectionHandler> {
+    inner: Connection<H>,
+}
+
+impl<H: ConnectionHandler> Conn<H> {
+    /// `Connection::new(muxer, handler, None, max_negotiating_inbound_streams, idle_timeout)`
+    pub fn new(
+        muxer: StreamMuxerBox,
+        handler: H,
+        max_negotiating_inbound_streams: usize,
+        idle_timeout: Duration,
+    ) -> Self {
+        Conn {
+            inner: Connection::new(
+                muxer,
+                handler,
+                None,
+                max_negotiating_inbound_streams,
+                idle_timeout,
+            ),
+        }
+    }
+
+    /// One call of the real `Connection::poll`.
+    pub fn poll(&mut self, cx: &mut Context<'_>) -> Polled {
+        match Pin::new(&mut self.inner).poll(cx) {
+            Poll::Pending => Polled::Pending,
+            Poll::Ready(Ok(_)) => Polled::Event,
+            Poll::Ready(Err(ConnectionError::KeepAliveTimeout)) => Polled::KeepAliveTimeout,
+            Poll::Ready(Err(e)) => Polled::OtherError(e.to_string()),
+        }
+    }
+
+    pub fn snapshot(&self) -> Snapshot {
+        Snapshot {
+            shutdown: kind(&self.inner.shutdown),
+            negotiating_in: self.inner.negotiating_in.len(),
+            negotiating_out: self.inner.negotiating_out.len(),
+            requested_substreams: self.inner.requested_substreams.len(),
+            active_streams: !self.inner.stream_counter.has_no_active_streams(),
+        }
+    }
+
+    /// The handler, to script it between polls.
+    pub fn handler_mut(&mut self) -> &mut H {
+        &mut self.inner.handler
+    }
+
+    /// `Connection::on_behaviour_event`
+    pub fn on_behaviour_event(&mut self, event: H::FromBehaviour) {
+        self.inner.on_behaviour_event(event)
+    }
+
+    /// Keys of `local_supported_protocols` (read-only, unordered).
+    pub fn local_protocols(&self) -> Vec<String> {
+        self.inner
+            .local_supported_protocols
+            .keys()
+            .map(|k| k.0.as_ref().to_owned())
+            .collect()
+    }
+
+    /// Content of `remote_supported_protocols` (read-only, unordered).
+    pub fn remote_protocols(&self) -> Vec<String> {
+        self.inner
+            .remote_supported_protocols
+            .iter()
+            .map(|p| p.as_ref().to_owned())
+            .collect()
+    }
+}
